@@ -67,6 +67,15 @@ fn run_once(args: &[std::ffi::OsString], tmp: &std::path::Path, env: &[(String, 
         cmd.env(k, v);
     }
     cmd.stdin(Stdio::null()).stdout(Stdio::piped()).stderr(Stdio::piped());
+    // a harness started as a background job of a non-interactive shell inherits SIGINT ignored; s4 must start with the
+    // default disposition, as under a terminal, or an interrupt before its handler is installed is silently lost
+    unsafe {
+        use std::os::unix::process::CommandExt;
+        cmd.pre_exec(|| {
+            libc::signal(libc::SIGINT, libc::SIG_DFL);
+            Ok(())
+        });
+    }
     RUNS.fetch_add(1, std::sync::atomic::Ordering::Relaxed);
     let t0 = Instant::now();
     let mut child = cmd.spawn().expect("spawn s4");
@@ -134,7 +143,7 @@ impl Property for C18 {
         "C18"
     }
     fn rule(&self) -> String {
-        "case = 1..6 shipped compressed/archived journal and evtx files (gz, xz, bz2, lz4, tar) processed concurrently (+ optional text source), extraction slowed through the s4_verif delay hooks (per chunk 0/200/2000/30000 us; 0/500/5000 us between temp-file creation and its registration) x one unsignalled run + 4 (quick) / 16 (thorough) runs interrupted by SIGINT at generated instants: uniform over the unsignalled wall time, dense in the first 6 ms, and just before the normal end. oracle: after the process has exited the private TMPDIR is empty (every run, signalled or not); exit status 0/1, or death by SIGINT before the handler is installed; a signalled run must not simply run on to its normal end (decided only when the unsignalled run would have needed > 3.75 s more; 5% of cases stretch extraction to 30 ms per chunk for that). non-trivial = the signal arrived while >= 1 temp file existed; distinct = (case, signal instant).".into()
+        "case = 1..6 shipped compressed/archived journal and evtx files (gz, xz, bz2, lz4, tar) processed concurrently (+ optional text source), extraction slowed through the s4_verif delay hooks (per chunk 0/200/2000/30000 us; 0/500/5000 us between temp-file creation and its registration) x one unsignalled run + 4 (quick) / 16 (thorough) runs interrupted by SIGINT at generated instants: uniform over the unsignalled wall time, dense in the first 6 ms, and just before the normal end. oracle: after the process has exited the private TMPDIR is empty (every run, signalled or not); exit status 0/1, or death by SIGINT before the handler is installed; a signalled run must not simply run on to its normal end (decided only when the unsignalled run would have needed > 3.75 s more; one case in seven stretches extraction to 30 ms per chunk for that). non-trivial = the signal arrived while >= 1 temp file existed; distinct = (case, signal instant).".into()
     }
     fn assumptions(&self) -> Vec<String> {
         vec!["crash points are sampled, not enumerated; the signal instant is controlled to roughly 50-300 us".into(), "a leftover seen once is a violation regardless of reproducibility".into()]
@@ -150,10 +159,10 @@ impl Property for C18 {
         (
             prop::collection::vec(0u8..POOL.len() as u8, 1..=6),
             prop::bool::weighted(0.3),
-            prop_oneof![6 => Just(0u32), 6 => Just(200u32), 6 => Just(2000u32), 1 => Just(30000u32)],
+            prop_oneof![6 => Just(0u32), 6 => Just(200u32), 6 => Just(2000u32), 3 => Just(30000u32)],
             prop::sample::select(vec![0u32, 500, 5000]),
             prop::collection::vec((prop::bool::weighted(0.35), any::<u16>()), ns..=ns),
-            prop::bool::weighted(0.06),
+            prop::bool::weighted(0.1),
         )
             .prop_map(|(files, with_text, extract_delay_us, ntf_delay_us, signals, slow_printing)| Case { files, with_text, extract_delay_us, ntf_delay_us, slow_printing: slow_printing && extract_delay_us < 30000, signals })
             .boxed()
@@ -227,8 +236,8 @@ impl Property for C18 {
                 // Only decidable when the unsignalled run would have needed clearly more than 3 s after the signal.
                 let remaining = t.saturating_sub(d);
                 if a > Duration::from_secs(3) && a.as_secs_f64() > 0.8 * remaining.as_secs_f64() && r.signal.is_none() {
-                    // known finding F19: while nothing has been delivered yet (sources still being extracted) the interrupt
-                    // is only acted upon when the next datum arrives
+                    // fixed finding F21 (d19963f3): while nothing had been delivered yet (sources still being extracted) the
+                    // interrupt was only acted upon when the next datum arrived
                     let sig = if r.printed_at_signal == 0 { "no-prompt-exit-before-first-message" } else { "no-prompt-exit" };
                     return Outcome::fail(sig, format!("{}: SIGINT after {:?} of {:?} ({} bytes printed so far): the process ran on for {:?}", ctx, d, t, r.printed_at_signal, a));
                 }
